@@ -496,6 +496,12 @@ func (ed Editor) InsertDefinitionsTableOpts(pos int, definitions [][2]string, wi
 		}
 		// subtract 2 from width so we can put in a left margin of "  "
 		rightCol := manip.Wrap(gem.New(def), rightWidth-2, gem.New(opts.LineSeparator))
+		if rightCol.Len() < 1 {
+			// a definition that is nothing but whitespace wraps to no lines at
+			// all; treat it like the empty definition so it still gets its
+			// marker
+			rightCol.Append(gem.Zero)
+		}
 		rightCol.Apply(func(idx int, line string) []string {
 			if idx == 0 {
 				return []string{"- " + line}
